@@ -4,7 +4,7 @@ C06, part 1: observational equality of sampler states and the congruence of ever
 replica-exchange state machine with respect to it.
 
 `ObsR strict t0 ra rb a b` relates two states that agree on everything the operations read:
-  n, W, trajs, locks, locked, locked0, workers, cstep, tsteps, trajNum, ensEng, seed, entropy, spawned,
+  n, W, trajs, locks, locked, locked0, lockedOrd, locked0Ord (the stream ordinals on record), workers, cstep, tsteps, trajNum, ensEng, seed, entropy, spawned,
   mainDraws; `frac` and `wts` as finite maps (same `lookup` for every key — the restored state holds the
   same entries in another order); with `strict` also occ and toinitiate (both equal to `t0`: no operation
   changes it, so the index keeps track of "the initiation is closed" along a run for free).
@@ -32,6 +32,8 @@ structure ObsR (strict : Prop) (t0 : Int) (ra rb : List Row) (a b : St) : Prop w
   locks : a.locks = b.locks
   locked : a.locked = b.locked
   locked0 : a.locked0 = b.locked0
+  lockedOrd : a.lockedOrd = b.lockedOrd
+  locked0Ord : a.locked0Ord = b.locked0Ord
   workers : a.workers = b.workers
   cstep : a.cstep = b.cstep
   tsteps : a.tsteps = b.tsteps
@@ -51,7 +53,7 @@ structure ObsR (strict : Prop) (t0 : Int) (ra rb : List Row) (a b : St) : Prop w
 def ObsEq (a b : St) : Prop := ObsR True a.toinitiate a.rows b.rows a b
 
 theorem ObsR.refl (s : St) : ObsR True s.toinitiate s.rows s.rows s s :=
-  ⟨rfl, rfl, rfl, rfl, rfl, rfl, rfl, rfl, rfl, rfl, FEq.refl _, FEq.refl _, rfl, rfl, rfl, rfl, rfl,
+  ⟨rfl, rfl, rfl, rfl, rfl, rfl, rfl, rfl, rfl, rfl, rfl, rfl, FEq.refl _, FEq.refl _, rfl, rfl, rfl, rfl, rfl,
    fun _ => ⟨rfl, rfl⟩, fun _ => rfl, ⟨[], by simp, by simp⟩⟩
 
 theorem ObsR.weaken {p : Prop} {t0 : Int} {ra rb : List Row} {a b : St} (h : ObsR True t0 ra rb a b) : ObsR p t0 ra rb a b :=
